@@ -21,19 +21,9 @@ NOT_APPLICABLE = []
 
 PROPS = {}
 
-PROPS["C11"] = dict(
-    harness="c11_arrays",
-    flavours=["plain", "asan"],
-    fuzz=True,
-    fuzz_max_len=1024,
-    enumerates=True,
-    engines="enumeration + rapidcheck + libFuzzer(ASan/UBSan)",
-    technique="model-based stateful property testing (reference index-range map after every operation), bounded-exhaustive short histories, libFuzzer under ASan/UBSan",
-    rule="operation sequences over VectorWithOffset<int>, VectorWithOffset<counting type>, Array<1..3,float> (3 live objects; ops: construct/copy/move/assign/resize/grow/reserve/recycle/set_offset/fill/element write/at()/data pointers/binary and scalar arithmetic/xapyb/==/thresholds/memory views/regular-range queries); all sequences of length<=3 (quick) or <=4 (thorough) over 22 concretised ops are enumerated, longer ones are generated by rapidcheck and by libFuzzer through the same decoder; non-trivial = sequence contains a shrinking resize followed by a growing one, or a copy/move/assignment, or a binary/scalar arithmetic op; distinct by hash of the sequence",
-    level_text="Every generated operation history is executed on the real containers and on a reference map; after every step size, index range, every element (via operator[], iterators, full iterators, data pointers), sums/extrema, equality and aliasing with shared buffers must agree, incompatible-range operations and out-of-range at() must be reported, and the ASan/UBSan build must stay silent. Exploration: no counterexample among the enumerated and generated histories.",
-    level_note="Trusted: the reference model in harness/c11_arrays.cxx (written from the class documentation). Elements that VectorWithOffset documents as default-initialised are not compared. Asserts are switched off (Release behaviour) when 'reported as error' clauses are decided. Not covered: Array<4>, element types other than int/float/counting type, OpenMP-reduced sums.",
-    assumptions=["reference model written from the class documentation", "histories use index ranges within [-5,7] and at most 3 live objects"],
-    quick=dict(workers=4, cases=30000, seconds=25, size=30, run_flavours=["plain", "asan"], asan_workers=2, asan_cases=6000, fuzz_seconds=20, fuzz_jobs=2),
-    thorough=dict(workers=12, cases=400000, seconds=420, size=100, run_flavours=["plain", "asan"], asan_workers=4, asan_cases=100000, fuzz_seconds=600, fuzz_jobs=8),
-    nontrivial_floor=0.3,
-)
+
+import glob as _glob, os as _os
+for _f in sorted(_glob.glob(_os.path.join(_os.path.dirname(_os.path.abspath(__file__)), "props.d", "C*.py"))):
+    _ns = {}
+    exec(compile(open(_f).read(), _f, "exec"), _ns)
+    PROPS[_ns["ID"]] = _ns["CONFIG"]
